@@ -44,16 +44,22 @@ type C8User struct {
 	secret    string
 }
 
-func (u C8User) Greeting() string                  { return "hi " + u.Name }
+func (u C8User) Greeting() string { return "hi " + u.Name }
 func (u *C8User) PGreeting() string {
 	if u == nil {
 		return "phi <nil>"
 	}
 	return "phi " + u.Name
 }
-func (u C8User) Add(a, b int) int                  { return a + b }
-func (u C8User) Echo(v *pongo2.Value) string       { return "echo:" + v.String() }
-func (u C8User) Sum(xs ...int) int                 { s := 0; for _, x := range xs { s += x }; return s }
+func (u C8User) Add(a, b int) int            { return a + b }
+func (u C8User) Echo(v *pongo2.Value) string { return "echo:" + v.String() }
+func (u C8User) Sum(xs ...int) int {
+	s := 0
+	for _, x := range xs {
+		s += x
+	}
+	return s
+}
 func (u C8User) Join(sep string, xs ...string) string { return strings.Join(xs, sep) }
 func (u C8User) Maybe(fail bool) (string, error) {
 	if fail {
@@ -61,11 +67,11 @@ func (u C8User) Maybe(fail bool) (string, error) {
 	}
 	return "maybe-ok", nil
 }
-func (u C8User) Self() C8User     { return u }
-func (u C8User) Ptr() *C8User     { return &u }
-func (u C8User) NilPtr() *C8User  { return nil }
-func (u C8User) Two() (int, int)  { return 1, 2 }
-func (u C8User) Nothing()         {}
+func (u C8User) Self() C8User    { return u }
+func (u C8User) Ptr() *C8User    { return &u }
+func (u C8User) NilPtr() *C8User { return nil }
+func (u C8User) Two() (int, int) { return 1, 2 }
+func (u C8User) Nothing()        {}
 func (u C8User) WithCtx(ctx *pongo2.ExecutionContext, s string) string {
 	if ctx == nil {
 		return "noctx"
@@ -85,12 +91,12 @@ func (u C8User) CtxSum(ctx *pongo2.ExecutionContext, xs ...int) int {
 	}
 	return s
 }
-func (u C8User) AnyArg(a any) string          { return fmt.Sprintf("any:%v", a) }
-func (u C8User) Half(f float64) float64       { return f / 2 }
-func (u C8User) Neg(b bool) bool              { return !b }
-func (u C8User) Val() *pongo2.Value           { return pongo2.AsValue(u.Name + "-val") }
-func (u C8User) NilVal() *pongo2.Value        { return pongo2.AsValue(nil) }
-func (u C8User) Inn() C8Inner                 { return u.Inner }
+func (u C8User) AnyArg(a any) string    { return fmt.Sprintf("any:%v", a) }
+func (u C8User) Half(f float64) float64 { return f / 2 }
+func (u C8User) Neg(b bool) bool        { return !b }
+func (u C8User) Val() *pongo2.Value     { return pongo2.AsValue(u.Name + "-val") }
+func (u C8User) NilVal() *pongo2.Value  { return pongo2.AsValue(nil) }
+func (u C8User) Inn() C8Inner           { return u.Inner }
 
 func c8Root(r *Rng) map[string]any {
 	name := r.Pick([]string{"Ann", "Bob", "Zoë", "x<y"})
@@ -98,8 +104,8 @@ func c8Root(r *Rng) map[string]any {
 	friend := &C8User{Name: "Fr" + name, Age: 20 + r.Intn(30), Tags: []string{"f"}, Meta: map[string]any{"k": "fv"}, Inner: C8Inner{Title: "ft"}}
 	u := C8User{Name: name, Age: r.Intn(90), Score: float64(r.Intn(100)) / 4, Active: r.Bool(), Small: uint8(r.Intn(200)),
 		Tags: []string{"t0", "t1", "t2"}[:r.Intn(4)], Nums: [3]int{r.Intn(9), 7, 9},
-		Meta:  map[string]any{"k": "v", "n": 5, "nil": nil, "lst": []any{1, "x", nil, []int{4, 5}}, "sub": map[string]any{"deep": "dv"}, "user": friend, "Name": "meta-name"},
-		ByID:  map[int]string{1: "one", 2: "two"},
+		Meta:   map[string]any{"k": "v", "n": 5, "nil": nil, "lst": []any{1, "x", nil, []int{4, 5}}, "sub": map[string]any{"deep": "dv"}, "user": friend, "Name": "meta-name"},
+		ByID:   map[int]string{1: "one", 2: "two"},
 		Friend: friend, Any: []string{"any0", "any1"}, Inner: inner, PInner: &inner,
 		Fn: func() string { return "fn-result" }, Fn1: func(i int) int { return i * 2 }, secret: "s3cr3t"}
 	return map[string]any{
@@ -110,8 +116,13 @@ func c8Root(r *Rng) map[string]any {
 		"k": "b", "ik": 1, "idx": 2, "fk": 1.5, "bk": true, "neg": -1, "big": 99,
 		"f0": func() string { return "f0r" }, "f1": func(i int) int { return i + 1 }, "f2": func(a, b string) string { return a + b },
 		"fv": func(xs ...int) int { return len(xs) }, "fval": func(v *pongo2.Value) *pongo2.Value { return pongo2.AsValue("<" + v.String() + ">") },
-		"ferr": func(fail bool) (int, error) { if fail { return 0, errors.New("ferr-failed") }; return 5, nil },
-		"fctx": func(ctx *pongo2.ExecutionContext) string { return "implicit" },
+		"ferr": func(fail bool) (int, error) {
+			if fail {
+				return 0, errors.New("ferr-failed")
+			}
+			return 5, nil
+		},
+		"fctx":  func(ctx *pongo2.ExecutionContext) string { return "implicit" },
 		"fctxv": func(ctx *pongo2.ExecutionContext, xs ...int) int { return 100 + len(xs) }, "fctx2": func(ctx *pongo2.ExecutionContext, a int, b string) string { return fmt.Sprint(a, b) }, "fptr": func() *C8User { return &u }, "fnil": func() *C8User { return nil },
 		"fstruct": func() C8User { return u }, "flist": func() []int { return []int{7, 8} }, "fmap": func() map[string]int { return map[string]int{"z": 26} },
 	}
